@@ -311,6 +311,9 @@ class AbstractPWA(Alignment, Transform, Invertible):
 
             if exception_thrown:
                 raise TriangleContainmentError(np.hstack(points_outside_source_domain))
+            elif not outputs:
+                # no points, so no batches: same as the unbatched call
+                return self._apply(x, **kwargs)
             else:
                 return np.vstack(outputs)
 
